@@ -7,7 +7,7 @@ from vf import adapter, linegram as lg, rops
 from vf.core import Violation, case_hash
 
 RULE = (
-    "table: every opcode of R-OPS (TEAL v1-v8) x immediate shapes (dig/cover/uncover/bury/popn/dupn n in 0..12, "
+    "table: every opcode of R-OPS (TEAL v1-v8) x immediate shapes (dig/cover/uncover/bury/popn/dupn n in 0..12 spelled decimal, hex and octal, "
     "pushints/pushbytess of 1..6, match/switch with 1..5 labels, proto, frame ops) - tealer's (pop, push) must "
     "equal the AVM's; exhaustive. tokens: straight-line blocks of 1-40 instructions over the whole opcode set "
     "(branch/terminator only last) are executed on a stack of unique tokens by R-OPS (computing opcodes push "
@@ -43,7 +43,9 @@ def table_cases():
             shapes = list(range(1, 4))
         elif name == "replace":
             shapes = [None, 0, 1, 2, 9]
-        for sh in shapes:
+        sixops = name in ("dig", "cover", "uncover", "bury", "popn", "dupn")
+        # the assembler reads the count/depth immediate with base detection: decimal, 0x.. and 0.. (octal)
+        for sh, style in [(sh, style) for sh in shapes for style in ((0, 1, 2) if sixops else (0,))]:
             toks, vals = [], []
             for kind in op.imm:
                 if kind == "u8opt":
@@ -51,7 +53,7 @@ def table_cases():
                         toks.append(str(sh)); vals.append(sh)
                 elif kind == "u8":
                     v = sh if sh is not None else 1
-                    toks.append(str(v)); vals.append(v)
+                    toks.append(lg.spell_int(v, style)); vals.append(v)
                 elif kind == "i8":
                     toks.append("-1"); vals.append(-1)
                 elif kind == "u64":
@@ -183,10 +185,10 @@ def block_case(draw, exclude=()):
         toks, vals, _ = draw(lg.immediates(nm))
         if nm in ("dig", "cover", "uncover", "popn", "dupn"):
             v = draw(st.integers(0, 12))
-            toks, vals = [str(v)], [v]
+            toks, vals = [lg.spell_int(v, draw(st.sampled_from([0, 0, 1, 2])))], [v]
         elif nm == "bury":
             v = draw(st.integers(1, 12))
-            toks, vals = [str(v)], [v]
+            toks, vals = [lg.spell_int(v, draw(st.sampled_from([0, 0, 1, 2])))], [v]
         lines.append([nm, toks, vals])
     if draw(st.integers(0, 3)) == 0:
         nm = draw(st.sampled_from(["return", "err", "bnz", "bz", "switch", "match", "b", "callsub", "retsub"]))
